@@ -355,8 +355,35 @@ def r15_3(ctx: Ctx):
     rets = [r for r in body_walk(fn.node) if isinstance(r, ast.Return)]
     t = canon(rets[0].value, fdefs) if len(rets) == 1 else ""
 
+    # an `ord=` keyword: 2 / None is the Euclidean norm; an option of the clustering whose DEFAULT is 2 / None keeps the documented
+    # behaviour (another norm is the caller's explicit choice); any other fixed norm is not Euclidean
+    ord_undecided = None
+    for mo in list(re.finditer(r",ord=([^,()]+)", t)):
+        v_ = mo.group(1)
+        keep = None
+        if v_ in ("2", "None", "2.0"):
+            keep = True
+        elif re.fullmatch(r"%s\.(\w+)" % re.escape(fn.self_name() or "self"), v_):
+            attr_ = v_.split(".", 1)[1]
+            init_ = ctx.prog.lookup_method(nbc, "__init__")
+            if init_ is not None:
+                a_ = init_.node.args
+                pos_ = a_.posonlyargs + a_.args
+                dm_ = dict(zip([x.arg for x in pos_][len(pos_) - len(a_.defaults):], a_.defaults)) if a_.defaults else {}
+                dm_.update({k.arg: d for k, d in zip(a_.kwonlyargs, a_.kw_defaults) if d is not None})
+                for y in body_walk(init_.node):
+                    if isinstance(y, (ast.Assign, ast.AnnAssign)) and any(is_self_attr(t_, attr_, init_.self_name()) for t_ in (y.targets if isinstance(y, ast.Assign) else [y.target])) and isinstance(getattr(y, "value", None), ast.Name) and y.value.id in dm_ and isinstance(dm_[y.value.id], ast.Constant) and dm_[y.value.id].value in (None, 2):
+                        keep = True
+            if keep is None:
+                ord_undecided = v_
+                keep = True
+        if keep:
+            t = t.replace(mo.group(0), "", 1)
     okn = bool(re.search(r"np\.linalg\.norm\(%s\.genome-np\.array\(\[(\w+)\.genomefor\1in%s\]\),axis=1\)" % (i_p, b_p), t)) and "np.argmin(" in t and t.count("np.argmax") == 0
     ordok = "ord=" not in t
+    if okn and ordok and ord_undecided is not None:
+        obs.append(ctx.ob("R15.3", fn, rets[0] if rets else fn.node, status=INCONCLUSIVE, detail=f"the norm of the nearest-better distance is chosen by `{ord_undecided}`: cannot tell that it is the Euclidean norm by default", construct="nearest"))
+        return obs
     expanded = "np.sqrt(" in t and ("@" in t or "np.dot(" in t or "einsum" in t) and re.search(r"-2(\.0)?\*|\*2(\.0)?\b", t) is not None
     if expanded:
         obs.append(ctx.ob("R15.3", fn, rets[0] if rets else fn.node, status=VIOLATION, detail="distances are computed in the expanded form sqrt(|a|^2 - 2ab + |b|^2): catastrophic cancellation for populations far from the origin makes them wrong (and not translation invariant); the definition needs ||a - b||", construct="nearest"))
